@@ -278,6 +278,9 @@ def main(argv=None):
         if code == 2:
             for m in inconcl[:8]:
                 print(f"INCONCLUSIVE property={pid} {m[:1200]}")
+        elif inconcl:
+            for m in inconcl[:3]:
+                print(f"note: also inconclusive: {m[:1200]}")
         return code
     finally:
         shutil.rmtree(scratch, ignore_errors=True)
